@@ -525,6 +525,37 @@ def nsPathOK (lang : Lang) (self : NodeRef) : NodeRef → List Nat → Bool
     | none => false
 
 
+/-! ### Runtime side of `prev_sibling_spec_partial` -/
+
+mutual
+  /-- No raw node strictly inside the subtree has the slot id `sid`. -/
+  def noIdIn (sid : Nat) : Tree → Bool
+    | .mk d kids => noIdInL sid d.addr kids.length kids 0
+  def noIdInL (sid addr nk : Nat) : List Tree → Nat → Bool
+    | [], _ => true
+    | c :: rest, k => (slotId addr nk k != sid) && noIdIn sid c && noIdInL sid addr nk rest (k + 1)
+end
+
+/-- The visible nodes that precede the end of the path within `n`: earlier siblings at the top
+level first, then those at each deeper level (the same list as `earlierSiblings` of the cursor
+theorems, outermost level first). -/
+def earlierOnPath (lang : Lang) : NodeRef → List Nat → List (Tree × Nat)
+  | _, [] => []
+  | n, k :: rest => enumKids lang n.t.data.productionId (n.t.kids.take k) 0 ++
+      (match (rawChildren lang n)[k]? with
+       | some rc => earlierOnPath lang rc.node rest
+       | none => [])
+
+/-- Hypotheses of `prev_sibling_spec_partial` along the path (decidable; evaluated on real trees):
+no raw node among the earlier siblings (nor inside them) and no ancestor on the path has the slot
+id of `self`. -/
+def psPathOK (lang : Lang) (self : NodeRef) : NodeRef → List Nat → Bool
+  | _, [] => true
+  | n, k :: rest => noIdInL self.id n.t.data.addr n.t.kids.length (n.t.kids.take k) 0 &&
+    match (rawChildren lang n)[k]? with
+    | some rc => rest.isEmpty || (rc.node.id != self.id && psPathOK lang self rc.node rest)
+    | none => false
+
 /-- Nearest relevant proper ancestor of the end of the path together with the path from it
 (`parentOnPath` = first component). -/
 def parentSplit (lang : Lang) : NodeRef × List Nat → NodeRef → List Nat → NodeRef × List Nat
@@ -545,6 +576,11 @@ structure SiblingHyp where
   outside : Nat := 0
   bad : Nat := 0
   nexts : List (Nat × Option (NodeData × Nat)) := []
+  /-- the same three counters and expectations for `prev_sibling_spec_partial` -/
+  pchecked : Nat := 0
+  poutside : Nat := 0
+  pbad : Nat := 0
+  prevs : List (Nat × Option (NodeData × Nat)) := []
 
 def siblingHyp (lang : Lang) (root : NodeRef) : SiblingHyp :=
   (pathsOf root.t).foldl (init := {}) fun acc p =>
@@ -554,12 +590,82 @@ def siblingHyp (lang : Lang) (root : NodeRef) : SiblingHyp :=
       if !d.relevant lang true || d.startByte == d.endByte then acc
       else
         let (par, q) := parentSplit lang (root, p) root p
-        if !(nsPathOK lang d par q) then { acc with outside := acc.outside + 1 }
+        let parOK := par.id == (parentOnPath lang root root p).id
+        let acc :=
+          if !(nsPathOK lang d par q) then { acc with outside := acc.outside + 1 }
+          else
+            let exp := ((laterOnPath lang par q).head?).map fun x => (x.1.data, x.2)
+            let got := (nextSiblingPort lang (root.t.size + 1) root d true).map fun r => (r.t.data, r.alias)
+            if parOK && decide (got = exp) then
+              { acc with checked := acc.checked + 1, nexts := (d.id, exp) :: acc.nexts }
+            else { acc with bad := acc.bad + 1 }
+        if !(psPathOK lang d par q) then { acc with poutside := acc.poutside + 1 }
         else
-          let exp := ((laterOnPath lang par q).head?).map fun x => (x.1.data, x.2)
-          let got := (nextSiblingPort lang (root.t.size + 1) root d true).map fun r => (r.t.data, r.alias)
-          if par.id == (parentOnPath lang root root p).id && decide (got = exp) then
-            { acc with checked := acc.checked + 1, nexts := (d.id, exp) :: acc.nexts }
-          else { acc with bad := acc.bad + 1 }
+          let exp := ((earlierOnPath lang par q).getLast?).map fun x => (x.1.data, x.2)
+          let got := (prevSiblingPort lang (root.t.size + 1) root d true).map fun r => (r.t.data, r.alias)
+          if parOK && decide (got = exp) then
+            { acc with pchecked := acc.pchecked + 1, prevs := (d.id, exp) :: acc.prevs }
+          else { acc with pbad := acc.pbad + 1 }
+
+/-! ### Runtime side of `first_child_for_byte_spec_partial` -/
+
+mutual
+  /-- The search `ts_node_first_child_for_byte` is meant to perform, by plain recursion: the first
+  visible child (hidden children replaced by theirs, in order) that ends after `goal`; a hidden child
+  is entered only if it ends after `goal`, and the scan CONTINUES with the next sibling when nothing
+  is found inside (the C code has a single saved iterator for that, see `ndeNode`). -/
+  def fcbNode (lang : Lang) (goal : Nat) : Tree → Length → Option NodeRef
+    | .mk d kids, start => fcbKids lang goal d.productionId d.addr kids.length kids start 0 0
+  def fcbKids (lang : Lang) (goal pid addr nk : Nat) : List Tree → Length → Nat → Nat → Option NodeRef
+    | [], _, _, _ => none
+    | c :: rest, pos, si, k =>
+      let cstart := if k > 0 then length_add pos c.data.padding else pos
+      let node : NodeRef := { t := c, alias := (if c.data.extra then 0 else lang.aliasAt pid si), id := slotId addr nk k, start := cstart }
+      let next := fcbKids lang goal pid addr nk rest (length_add cstart c.data.size) (if c.data.extra then si else si + 1) (k + 1)
+      if node.endByte > goal then
+        if node.relevant lang true then some node
+        else if node.childCount > 0 then
+          match fcbNode lang goal c cstart with
+          | some r => some r
+          | none => next
+        else next
+      else next
+end
+
+mutual
+  /-- "No dead end": every hidden child the search enters (it has visible children and ends after
+  `goal`) contains a visible child ending after `goal`.  This is the hypothesis finding
+  `C06-first-child-for-byte-fallback` forces: after a failed descent the C code resumes from its
+  single saved iterator, which is saved under an odd condition and overwritten by nested descents. -/
+  def ndeNode (lang : Lang) (goal : Nat) : Tree → Length → Bool
+    | .mk d kids, start => ndeKids lang goal d.productionId d.addr kids.length kids start 0 0
+  def ndeKids (lang : Lang) (goal pid addr nk : Nat) : List Tree → Length → Nat → Nat → Bool
+    | [], _, _, _ => true
+    | c :: rest, pos, si, k =>
+      let cstart := if k > 0 then length_add pos c.data.padding else pos
+      let node : NodeRef := { t := c, alias := (if c.data.extra then 0 else lang.aliasAt pid si), id := slotId addr nk k, start := cstart }
+      let next := ndeKids lang goal pid addr nk rest (length_add cstart c.data.size) (if c.data.extra then si else si + 1) (k + 1)
+      if node.endByte > goal then
+        if node.relevant lang true then true
+        else if node.childCount > 0 then (fcbNode lang goal c cstart).isSome && ndeNode lang goal c cstart
+        else next
+      else next
+end
+
+
+/-! ### Runtime side of `descendant_for_byte_range_spec_partial` -/
+
+/-- Does the raw child span the byte range `[rs, re]`? -/
+def spans (rs re : Nat) (rc : RawChild) : Bool := decide (rc.node.startByte ≤ rs) && decide (re ≤ rc.posAfter.bytes)
+
+/-- The plain search: follow, from `node`, the first raw child that spans the range; answer the last
+relevant node on that chain. -/
+def dfrIdeal (lang : Lang) (rs re : Nat) : Nat → NodeRef → NodeRef → NodeRef
+  | 0, _, last => last
+  | f + 1, node, last =>
+    match (rawChildren lang node).find? (spans rs re) with
+    | none => last
+    | some rc => dfrIdeal lang rs re f rc.node (if rc.node.relevant lang true then rc.node else last)
+
 
 end TsVerif.C06
